@@ -26,6 +26,8 @@ filter; InventoryWorkingTree.extras lists a versioned directory only after the l
 Third round: delete-under-scan-lock — delete_items is called inside the `with tree.lock_*()` block that called iter_deletables.
 nested-branches-kept, two further clauses (from a third-round agent's observations on the unmodified tree, both known findings): the
 filter searches a listed directory for control directories below it; a listed file is checked against enclosing control directories.
+Fourth round: git-walk-nested-by-control-entry — GitWorkingTree._iter_files_recursive prunes nested trees through
+_directory_is_tree_reference() and has no `'.git' in dirnames` test (a gitfile is not a directory).
 Does not decide: correctness of WorkingTree.extras() / is_ignored().
 """
 DESTRUCTIVE = {"shutil.rmtree", "os.unlink", "os.remove", "os.rmdir", "osutils.delete_any", "osutils.rmtree", "delete_any", "rmtree", "os.removedirs", "shutil.move", "os.rename"}
@@ -154,8 +156,16 @@ def run(ctx):
         ctx.check("nested-branches-kept", f"{wfil}[files-in-nested-tree]", True, "a listed file is checked against enclosing control directories")
     else:
         ctx.violation("nested-branches-kept", f"{wfil}[files-in-nested-tree]", "else: result.append((path, subp))", "_filter_out_nested_controldirs keeps every listed path that is not a directory without asking whether it lies inside a nested tree: GitWorkingTree.extras() lists the files of a nested bzr branch one by one (nested/.bzr/README, …), so clean-tree deletes the nested branch, control directory included")
+    # ---- fourth round: the git walk recognises a nested tree by its control *entry* (directory or gitfile) --------------
+    GW = "breezy/git/workingtree.py"
+    fwalk = repo.func(GW, "GitWorkingTree._iter_files_recursive")
+    probes = [c for c in calls_in(fwalk) if call_attr(c) == "_directory_is_tree_reference"]
+    listing_tests = [norm(n_)[:60] for n_ in ast.walk(fwalk) if isinstance(n_, ast.Compare) and len(n_.ops) == 1 and isinstance(n_.ops[0], (ast.In, ast.NotIn)) and isinstance(n_.left, ast.Constant) and n_.left.value in (".git", b".git") and isinstance(n_.comparators[0], ast.Name) and n_.comparators[0].id.startswith("dirnames")]
+    ctx.check("git-walk-nested-by-control-entry", f"{GW}:GitWorkingTree._iter_files_recursive", bool(probes) and not listing_tests, "sub-directories are pruned through _directory_is_tree_reference() (lexists of <dir>/.git: a directory or a gitfile), not by looking for '.git' among the listed sub-directories", construct="; ".join(listing_tests), message=f"_iter_files_recursive {'tests `' + listing_tests[0] + '`' if listing_tests else 'no longer calls _directory_is_tree_reference()'}: a nested tree whose control entry is a .git *file* (submodule checkout, linked worktree) is not among the sub-directories os.walk lists, extras() yields its files one by one and clean-tree deletes the files of a nested branch")
+
 
 MUTANTS = [
+    Mutant("git walk looks for .git among the listed directories", "breezy/git/workingtree.py", "                if not recurse_nested and self._directory_is_tree_reference(\n                    os.fsdecode(relpath)\n                ):\n", "                if not recurse_nested and b\".git\" in dirnames and os.path.isdir(\n                    self.abspath(os.fsdecode(relpath))\n                ):\n", expect="git-walk-nested-by-control-entry"),
     Mutant("deletion after the tree lock is released", CT, "                return 0\n        delete_items(deletables, dry_run=dry_run)\n", "                return 0\n    delete_items(deletables, dry_run=dry_run)\n", expect="delete-under-scan-lock"),
     Mutant("unlink outside the dry-run guard", CT, "        if not dry_run:\n            if isdir(path):\n                shutil.rmtree(path, onerror=onerror)\n            else:", "        if isdir(path):\n            if not dry_run:\n                shutil.rmtree(path, onerror=onerror)\n        elif True:\n            if True:", expect="dry-run-deletes-nothing"),
     Mutant("unknowns yielded without the flag", CT, "        else:\n            if unknown:\n                yield tree.abspath(subp), subp\n", "        else:\n            yield tree.abspath(subp), subp\n", expect="category-guards"),
